@@ -27,6 +27,7 @@ type Session struct {
 	pos    int
 	Events []string
 	frozen []frozenItem
+	retries int
 	Killed bool
 }
 
@@ -67,6 +68,9 @@ func Run(f func()) (events []string) {
 }
 
 func next(kind, name string) string {
+	for cur.pos < len(cur.In) && cur.In[cur.pos].K == "lz" {
+		cur.pos++ // pattern entries are looked up by name
+	}
 	if cur.pos >= len(cur.In) {
 		panic(stop{"input exhausted at " + kind + " " + name})
 	}
@@ -305,6 +309,29 @@ func AnyF64Bits(name string) float64 { return math.Float64frombits(AnyU64(name))
 // subject of the C19 harnesses running the same inputs).
 func IgnorePanics() {}
 
-// FullRangeKeys: generated keys and signatures range over all values below the field width, including
-// ones with leading zero bytes (default: top byte non-zero, as for almost every real key).
-func FullRangeKeys(on bool) {}
+// KeyLeadingZeros: generated keys and signatures may have up to n leading zero bytes at the field width
+// (default 0: top byte non-zero, as for almost every real key).
+func KeyLeadingZeros(n int) {}
+
+// LeadingZerosOK lets a harness search natively for a key or signature with the byte pattern of the
+// solver's model: true iff b has exactly the recorded number of leading zero bytes (symbolic run: always true).
+func LeadingZerosOK(name string, b []byte) bool {
+	want := -1
+	for _, e := range cur.In {
+		if e.K == "lz" && e.N == name {
+			want, _ = strconv.Atoi(e.V)
+		}
+	}
+	n := 0
+	for _, x := range b {
+		if x != 0 {
+			break
+		}
+		n++
+	}
+	if want < 0 || n == want {
+		return true
+	}
+	cur.retries++
+	return cur.retries > 300000 // give up eventually: the replay will simply not reproduce
+}
